@@ -3,7 +3,7 @@
    stay the extracted inductive types. *)
 From Coq Require Import Extraction ExtrOcamlBasic.
 From Coq Require Import ZArith NArith List.
-From StarV Require Import Params Bytes Keccak Strobe Fp PolyDefs Shamir Adss Star Ggm Wasm Ppoprf Scenario.
+From StarV Require Import Params Bytes Keccak Strobe Fp LimbPrim LimbGen FpLimbs PolyDefs Shamir Adss Star Ggm Wasm Ppoprf Scenario.
 Extraction Language OCaml.
 Extraction "../ocaml/model.ml"
   N.of_nat N.to_nat Z.of_N Z.to_N N.add N.mul Nat.add Nat.mul
@@ -14,6 +14,9 @@ Extraction "../ocaml/model.ml"
   Fp.p Fp.val Fp.mkfp Fp.fadd Fp.fsub Fp.fmul Fp.fopp Fp.fdouble Fp.fsquare Fp.finv Fp.fpow Fp.fsqrt Fp.feqb
   Fp.f_num_bits Fp.f_capacity Fp.f_S Fp.f_two_inv Fp.f_gen Fp.f_rou Fp.f_rou_inv Fp.f_delta
   Fp.to_repr Fp.from_repr Fp.fp_of_limbs Fp.powmod
+  FpLimbs.ladd FpLimbs.lsub FpLimbs.lmul FpLimbs.lneg FpLimbs.ldouble FpLimbs.lsquare FpLimbs.linvert FpLimbs.lsqrt
+  FpLimbs.lpow_vartime FpLimbs.lfrom_repr FpLimbs.lto_repr FpLimbs.lto_canon FpLimbs.lfrom_u64 FpLimbs.lrandom_round FpLimbs.leqb FpLimbs.lis_odd
+  FpLimbs.lone LimbGen.R2 LimbGen.TWO_INV LimbGen.GENERATOR LimbGen.ROOT_OF_UNITY LimbGen.ROOT_OF_UNITY_INV LimbGen.DELTA LimbGen.MODULUS_LIMBS
   Shamir.share_to_bytes Shamir.share_from_bytes Shamir.recover
   Adss.sharing_of Adss.load_bytes Adss.store_bytes Adss.ashare_to_bytes Adss.ashare_from_bytes
   Star.wasm_material Star.message_to_bytes Star.message_from_bytes Star.parse_payload
